@@ -32,6 +32,9 @@ class Run:
         self.trace: list[dict[str, Any]] = []
         self.commit_no = 0
         self.crash_at: set[int] = set()
+        self.crash_at_exec: set[int] = set()   # crash right after the n-th task execution (result not yet recorded)
+        self.exec_no = 0
+        self._pending_crash = False
         self.force_row: int | None = None
         self.force_hit = False
         self.in_sweep = False
@@ -154,6 +157,9 @@ class Run:
             raise VerifCrash()
 
     def _on_execute(self, conn, sql, args):
+        if self._pending_crash:
+            self._pending_crash = False
+            raise VerifCrash()
         if self.force_row is not None and "ORDER BY deliver_at" in sql and "queue_messages" in sql \
                 and sql.lstrip()[:6].upper() == "SELECT":
             self.force_hit = True
@@ -161,6 +167,9 @@ class Run:
         return None
 
     def _on_exec(self, entry: dict) -> None:
+        self.exec_no += 1
+        if self.exec_no in self.crash_at_exec:
+            self._pending_crash = True   # raised at the engine's next SQL statement (main thread)
         self.emit({"e": "exec", "task": entry["task"], "prog": entry["prog"], "jumps": entry["jumps"],
                    "sig": entry["sig"], "view": entry["view"]})
 
@@ -259,6 +268,24 @@ class Run:
         self.quiet = q
         self.emit({"e": "sendsignal", "stage": stage_ref, "pers": persistent, "s": self.proj.state()})
 
+    def early_start(self, stage_ref: str) -> None:
+        from stabilize.queue.messages import StartStage
+
+        sid = None
+        for r in self.raw.execute("SELECT id FROM stage_executions WHERE ref_id = ?", (stage_ref,)):
+            sid = r["id"]
+        q = self.quiet
+        self.quiet = True
+        with self.store.transaction(self.queue) as txn:
+            txn.push_message(StartStage(execution_type="PIPELINE", execution_id=self.wf_id, stage_id=sid))
+        self.quiet = q
+        self.emit({"e": "early", "stage": stage_ref, "s": self.proj.state()})
+
+    def restart_clean(self) -> None:
+        """Orderly process restart while idle: same loss of volatile state, recovery on start."""
+        self.crash_restart()
+        self.sweep()
+
     def crash_restart(self) -> None:
         """Called after VerifCrash propagated: drop volatile state, build a fresh worker."""
         self.crashes += 1
@@ -278,6 +305,8 @@ class Run:
             return "delivered"
         poison = [r for r in rows if r["att"] >= r["max"] and not r["locked"]]
         delayed = [r for r in rows if r["delayed"] and not r["locked"] and r["att"] < r["max"]]
+        if any(r["locked"] for r in rows):
+            return "locked"      # every lock lapses before a wait-retry delay is allowed to elapse
         if delayed:
             r = min(delayed, key=lambda r: r["deliver_at"])
             self.warp(r["qid"])
@@ -319,19 +348,24 @@ class Run:
 
 
 def run_fifo(prog: dict, crash_at: int | None = None, sweeps_after_crash: int = 1, tag: str = "fifo",
-             max_steps: int = 2000) -> tuple[dict, dict, int]:
-    """Uninterrupted (or single-crash) FIFO run.  Returns (trace, final, commits)."""
+             max_steps: int = 2000, crash_at_exec: int | None = None, late_expire: bool = False) -> tuple[dict, dict, int]:
+    """Uninterrupted (or single-crash) FIFO run.  Returns (trace, final, commits).
+    late_expire: after the restart the recovery sweep and its messages run BEFORE the lock of the
+    interrupted message lapses (a restart is usually faster than the 60 s lock)."""
     run = Run(prog, tag)
     try:
         run.start()
         if crash_at is not None:
             run.crash_at = {crash_at}
+        if crash_at_exec is not None:
+            run.crash_at_exec = {crash_at_exec}
         status = None
         crashed = run.run_protected(lambda: run.drain(max_steps))
         if crashed:
-            for row in run.rows():
-                if row["locked"]:
-                    run.expire(row["qid"])
+            if not late_expire:
+                for row in run.rows():
+                    if row["locked"]:
+                        run.expire(row["qid"])
             for _ in range(sweeps_after_crash):
                 run.sweep()
             status = run.drain(max_steps)
@@ -339,6 +373,8 @@ def run_fifo(prog: dict, crash_at: int | None = None, sweeps_after_crash: int = 
             status = "quiescent" if not run.rows() else "stuck"
         fin = run.final()
         fin["drain"] = status
-        return run.as_trace({"crash_at": -1 if crash_at is None else crash_at, "drain": status}), fin, run.commit_no
+        return run.as_trace({"crash_at": -1 if crash_at is None else crash_at,
+                             "crash_at_exec": -1 if crash_at_exec is None else crash_at_exec,
+                             "late_expire": late_expire, "drain": status, "execs": run.exec_no}), fin, run.commit_no
     finally:
         run.close()
